@@ -141,7 +141,9 @@ func (fv *familyVersion) GetLiveReferenceFiles(store string) map[FamilyID][]tabl
 // cannot remove current version from active versions.
 func (fv *familyVersion) removeVersion(v Version) {
 	fv.mutex.Lock()
-	if v != fv.current {
+	// the caller saw a reference count of 0 before it took the lock: a reader may have retained
+	// the version(as current version, under the read lock) since then, it will release it later.
+	if v != fv.current && v.NumOfRef() == 0 {
 		delete(fv.activeVersions, v.ID())
 	}
 	fv.mutex.Unlock()
